@@ -1,3 +1,4 @@
+import LunarVerif.Generated.Constants
 import LunarVerif.Proofs.C19
 /-!
 # C19 — Interceptor fail-safe bypasses the gateway after repeated errors, then recovers
@@ -286,6 +287,22 @@ example :
     (call ⟨2, 1, none, some ten, []⟩ (St.init 0) ⟨ten, .absent, .ok, .ok⟩).2.sent = [.gw] ∧
     (call ⟨2, 1, some api, none, [(api, .ip ⟨93, 184, 216, 34⟩)]⟩ (St.init 0) ⟨api, .absent, .ok, .ok⟩).2.sent = [.direct] ∧
     (call ⟨2, 1, none, none, []⟩ (St.init 0) ⟨ten, .val ['t', 'r', 'u', 'e'], .ok, .ok⟩).2.sent = [.gw] := by
+  decide
+
+end LunarVerif.C19
+
+/-! ## Regenerated constants (tie to the source; `Generated/Constants.lean` is rewritten from /repo
+    by `harness/go/cmd/extract` on every run, so this `decide` re-checks what the code says now) -/
+namespace LunarVerif.C19
+open LunarVerif.Generated
+
+/-- The defaults the model uses when the environment configures nothing (`Cfg.maxEff`, `Cfg.coolEff`)
+    are the ones in `fail_safe.py`, and they are positive (a zero default threshold would trip on the
+    first error; a zero cool-down would never bypass). -/
+theorem interceptor_defaults_ok :
+    Const.pyDefaultMaxErrors = 5 ∧ Const.pyDefaultCooldownSec = 10 ∧
+    (⟨0, 0, none, none, []⟩ : Cfg).maxEff = Const.pyDefaultMaxErrors.toNat ∧
+    (⟨0, 0, none, none, []⟩ : Cfg).coolEff = Const.pyDefaultCooldownSec.toNat := by
   decide
 
 end LunarVerif.C19
